@@ -23,7 +23,7 @@ LEVEL_TEXT = ('Each call of move_agent/turn_agent (alone, inside random chains, 
 LEVEL_NOTE = ('Trusted: refmodel.py tables; the blocking flag is read from the object itself (the statement is relative to '
               'it). Larger grids and histories are sampled, not enumerated.')
 SHARDS = {'quick': 4, 'thorough': 16}
-BUDGET_S = {'quick': 60, 'thorough': 600}
+BUDGET_S = {'quick': 300, 'thorough': 2400}
 RULE = ('case = (transition function or chain, state, action) observed at the transition-function hook. non-trivial = a '
         'move action whose target cell is outside the grid or is not plain Floor, or a turn; distinct by (function, deep '
         'state encoding, action). Exhaustive sub-space: every position x heading x 8 actions x 11 kinds of target cell '
